@@ -411,7 +411,7 @@ def run(repo, res):
                 n_w += 1
             if tgt_:
                 res.bad("R09.9", f"node_time_class.{q_} whole-array update `{tgt_[:60]}`", "updates the array in place: an object sharing it (clone_with_new_data passes arrays through) now holds converted data while still recording the old probability space; rebind a new array instead", repo.loc(f_, n_))
-    res.floor("node_time_values_rebinding_stores", n_w, 6)
+    res.floor("node_time_values_rebinding_stores", n_w, 3)
     res.ok("R09.9", "node_time_class whole-array updates rebind", f"{n_w} rebinding stores, no in-place update", "")
     # R09.8 ---------------------------------------------------------------------------
     from .common import borrow
